@@ -126,6 +126,25 @@ def run_c05(tier, seed, replay=None):
                             ["dfs", ["lib", "member", "r", ["list", 1, 2]], ["cond"] + clauses],
                             ["dfs", ["match", ["list", 1], ["arm", ["pats", "_"], ["cond"] + clauses]]]])
         cases.append(mk_case([], ["q", "r"], [shape]))
+    # the depth-first binary-disjunction API (DFSDisj::new / from_vec / from_array / from_conjunctions; the macros never reach it):
+    # clause order, with clauses decided when the goal is built (true, an empty clause, false) in every position
+    for _ in range(n // 5):
+        variant = rnd.choice(["new", "vec", "array", "conjs"])
+        nb = 2 if variant == "new" else rnd.randint(2, 4)
+        branches = []
+        for b in range(nb):
+            kind = rnd.random()
+            if kind < 0.25:
+                branches.append(["conj", "true"] if rnd.random() < 0.5 else ["conj"])
+            elif kind < 0.35:
+                branches.append(["conj", "false"])
+            elif kind < 0.7:
+                branches.append(["conj", ["lib", "member", "q", ["list", 10 * b + 1, 10 * b + 2]]])
+            else:
+                branches.append(["conj", ["eq", "q", 10 * b + 5], ["eq", "r", 0]])
+        d = ["disj", variant] + branches
+        shape = rnd.choice([["dfs", d], ["dfs", d, ["lib", "member", "r", ["list", 1, 2]]], ["dfs", ["cond", d, ["eq", "q", 99]]]])
+        cases.append(mk_case([], ["q", "r"], [shape], mode="seq"))
     # the known finding's witness, so that it is reported on every run while it exists
     cases.append(mk_case([], ["q"], [["dfs", ["cond", ["eq", "q", ["list", 3]], "true"]]]))
     return pcheck.run_check("C05", tier, seed, cases, "exact", oracle_c05, cone=CONE, replay=replay, known_classifier=known_c05,
@@ -354,6 +373,19 @@ def run_c08(tier, seed, replay=None):
         shape = [op] + first + [["conj", head] + dead] + later
         pre = [["eq", "r", 0]] if rnd.random() < 0.3 and dead[0] == "false" else []
         cases.append(mk_case([], ["q", "r"], pre + [shape], maxans=12, budget=2500))
+    # a committed clause with SEVERAL rest goals whose order matters (a committed-choice goal in the rest, multi-answer goals):
+    # the answers are those of head, rest1, rest2, .. in that order
+    for _ in range(n // 5):
+        vals = rnd.sample([1, 2, 3, 4], rnd.randint(2, 3))
+        op = rnd.choice(["conda", "condu"])
+        head = rnd.choice([["eq", "q", 1], ["lib", "member", "q", ["list", 1, 2]], "true"])
+        rest = rnd.choice([[["onceo", ["lib", "member", "r", ["list"] + vals]], ["eq", "r", vals[-1]]],
+                           [["onceo", ["lib", "member", "r", ["list"] + vals]], ["eq", "r", vals[0]]],
+                           [["lib", "member", "r", ["list"] + vals], ["lib", "member", "t", ["list", 7, 8]]],
+                           [["condu", ["lib", "member", "r", ["list"] + vals]], ["neq", "r", vals[0]], ["eq", "t", 0]],
+                           [["eq", "t", 0], ["onceo", ["cond", ["eq", "r", vals[0]], ["eq", "r", vals[1]]]], ["eq", "r", vals[1]]]])
+        later = rnd.choice([[], [["eq", "q", 9]]])
+        cases.append(mk_case([], ["q", "r", "t"], [[op, ["conj", head] + rest] + later], maxans=20, budget=3000))
     for _ in range(n // 10):
         v = rnd.randint(1, 5)
         cases.append(mk_case([], ["q"], [[rnd.choice(["condu", "onceo"]), ["conj", ["lib", "always"], ["eq", "q", v]]]],
@@ -423,6 +455,14 @@ def run_c09(tier, seed, replay=None):
                 g = ["conj", g, "true"]          # a conjunction whose start only suspends g: one more step
             first = ["eq", "q", 1] if tier == "quick" or d % 3 else ["eq", "q", ["list", 1, 2]]
             cases.append(mk_case([spinr], ["q"], [["cond", first, g]], maxans=1, budget=1500, must_answer=True))
+    # hidden finite-domain variables that are labeled after the query term, in hash order: whichever comes first, the answers are the same
+    for _ in range(max(6, n // 25)):
+        k = rnd.randint(3, 4)
+        hv = ["a", "b", "c", "d"][:k]
+        qd = rnd.sample(range(5, 10), 2)
+        body = [["fresh", hv, ["dom", "q", ["v"] + qd], ["dom", ["list"] + hv[:-1], ["i", 1, k - 1]], ["dom", hv[-1], ["i", 1, k]],
+                 ["rel", "distinctfd", ["list"] + hv]] + ([["rel", "ltefd", hv[0], hv[1]]] if rnd.random() < 0.3 else [])]
+        hs.append(mk_case([], ["q"], body, maxans=30, budget=20000, mode="bag", fd=True, must_answer=True))
     cases = hs + cases            # among the first cases: they are also re-run in fresh processes
     for c in hs * 3:
         cases.append(dict(c))
@@ -532,6 +572,19 @@ def run_c10(tier, seed, replay=None):
         cases.append(mk_case([], ["q", "r", "t"][:len(vs)], prefix + [["cond", ["conj"] + A, ["conj"] + B]], parts=(k + 1, k + 2), mode="bag"))
         cases.append(mk_case([], ["q", "r", "t"][:len(vs)], prefix + A, mode="bag"))
         cases.append(mk_case([], ["q", "r", "t"][:len(vs)], prefix + B, mode="bag"))
+    # ONE project goal reached by the states of both branches: the projected variable was bound, before the branch point, to a
+    # term that holds a variable the branches bind differently
+    for _ in range(n // 4):
+        a, b = rnd.sample([1, 2, 3, 4], 2)
+        shape = rnd.choice([["list", "y", 0], ["list", 0, ["list", "y"]], ["cons", "y", "y"], "y"])
+        prefix = [["eq", "p", shape]]
+        A, B = [["eq", "y", a]], [["eq", "y", b]]
+        suffix = [rnd.choice([["project", ["p"], ["eq", "q", "p"]], ["project", ["p"], ["eq", "q", ["list", "y", "p"]]],
+                              ["project", ["p", "y"], ["eq", "q", ["list", "p", "y"]]]])]
+        k = len(cases)
+        mk = lambda mid: mk_case([], ["q"], [["fresh", ["p", "y"]] + prefix + mid + suffix], mode="bag")
+        c0 = mk([["cond", ["conj"] + A, ["conj"] + B]]); c0["parts"] = (k + 1, k + 2)
+        cases.append(c0); cases.append(mk(A)); cases.append(mk(B))
     # the public binary-disjunction API (Disj::new / from_vec / from_array / from_conjunctions), which conde does not go through:
     # branches decided when the goal is built (a literal true, an empty clause, false) next to ordinary ones
     for _ in range(n // 2):
